@@ -202,7 +202,11 @@ def run(ctx):
         if kind.startswith("phase:") or kind == "anyphase":
             if (kind, attr) in ARGUED:
                 r.assumptions.append("%s: %s" % (key, ARGUED[(kind, attr)]))
-                r.ok("R12.1", key, where, detail={"exempt": "argued (see assumptions)"})
+                ok, why = _stale_handler_revalidates(ctx, pm, kind.split(":", 1)[1], attr)
+                r.check("R12.1", ok, key, where,
+                        "%s can be left pointing at a non-default handler by an aborted or finished parse, and %s: the first "
+                        "white-space token of the next document is handled by the stale handler" % (key, why),
+                        {"writers": names}, detail={"exempt": "stale handler re-validates its precondition", "checked": why})
                 continue
             cls_names = [kind.split(":", 1)[1]] if kind.startswith("phase:") else _owner_phases(pm, attr)
             ok_all, whys = True, []
@@ -234,6 +238,56 @@ def run(ctx):
     class_level_containers(ctx)
     r.rule("R12.5", "factory caches key on the full keyword arguments their value is built from", floor=1)
     lossy_cache_keys(ctx, "R12.5")
+
+
+def _stale_handler_revalidates(ctx, pm, cls_name, slot):
+    """A handler slot (`self.<slot> = self.<method>`) of a phase object survives reset().  That is harmless iff every
+    non-default handler installed in the slot (i) restores the default on entry and (ii) deviates from the default only under
+    a test that the current node is one of the elements whose start-tag handlers install it -- such a node can only have been
+    created in the present parse by those handlers, so a stale installation behaves like the default."""
+    cls = ctx.repo.cls(PARSER_REL, cls_name)
+    init = cls.methods.get("__init__")
+    default = None
+    for s in (walk_no_nested(init.node) if init else []):
+        if isinstance(s, ast.Assign) and attr_chain(s.targets[0]) == ["self", slot]:
+            default = (attr_chain(s.value) or [""])[-1]
+    if default is None:
+        return False, "no default handler is installed by __init__"
+    installs = {}
+    for m in cls.methods.values():
+        for s in walk_no_nested(m.node):
+            if isinstance(s, ast.Assign) and attr_chain(s.targets[0]) == ["self", slot]:
+                h = (attr_chain(s.value) or [""])[-1]
+                if h != default:
+                    installs.setdefault(h, set()).add(m.name)
+    if not installs:
+        return True, "only the default handler is ever installed"
+    st_tab = pm.table_for(cls, "startTagHandler")
+    for h, installers in installs.items():
+        hm = cls.methods.get(h)
+        if hm is None:
+            return False, "installed handler %s is not a method of the class" % h
+        names = set()
+        for inst in installers:
+            keys = {k for k, f in st_tab.map.items() if f.name == inst} if st_tab else set()
+            if not keys:
+                return False, "%s is installed by %s, which is not a start-tag handler" % (h, inst)
+            names |= keys
+        body = [s for s in hm.node.body if not (isinstance(s, ast.Expr) and isinstance(s.value, ast.Constant))]
+        restores = any(isinstance(s, ast.Assign) and attr_chain(s.targets[0]) == ["self", slot] and
+                       (attr_chain(s.value) or [""])[-1] == default for s in body)
+        if not restores:
+            return False, "%s does not restore the default handler on entry" % h
+        guards = []
+        for t in ast.walk(hm.node):
+            if isinstance(t, ast.Compare) and isinstance(t.ops[0], ast.In) and norm(t.left).endswith("openElements[-1].name"):
+                v = ctx.ce.try_eval(t.comparators[0], hm.module)
+                if isinstance(v, (tuple, list, set, frozenset)):
+                    guards.append(set(v))
+        if not any(names <= g for g in guards):
+            return False, ("%s (installed by the start tags %s) does not test that the current node is one of these elements before "
+                           "it deviates from the default handler" % (h, sorted(names)))
+    return True, "every installed handler restores the default and re-checks the current node against its installers' elements"
 
 
 def _owner_phases(pm, attr):
